@@ -68,7 +68,12 @@ class _CircuitFunction(torch.autograd.Function):
                 q0_conj, q0_grad, op_grad = numqi.sim.state.apply_gate_grad(q0_conj,
                         q0_grad, array, index, tag_op_grad=require_grad)
             elif kind=='custom':
+                if require_grad:
+                    # the gate object is stateful: use the array of *this* forward pass, not the one left behind by a later forward
+                    tmp0, gate.array = gate.array, array
                 q0_conj, q0_grad, op_grad = gate.grad_backward(q0_conj, q0_grad)#TODO
+                if require_grad:
+                    gate.array = tmp0
             else:
                 raise KeyError(f'not recognized gate "{gate}"')
             if require_grad:
